@@ -4,7 +4,7 @@ from fractions import Fraction
 
 import torch
 
-from harness.core import zoo
+from harness.core import zoo, zoo_kernels
 from harness.core.runner import Outcome
 from harness.core.util import int_tensor
 from harness.props import _ops
@@ -26,7 +26,68 @@ def generate(rng: random.Random, tier: str):
     for old in range(1, top + 1):
         for new in range(1, top + 1):
             cases.append({'kind': 'zeropad', 'shape': [2, old], 'dim': [-1], 'orig': [old], 'padded': [new], 'seed': old * 100 + new})
+    nk = 20 if tier == 'thorough' else 4
+    for _ in range(nk * 2):
+        cases.append(zoo_kernels.gen_config('wavelet', rng))
+    for _ in range(nk):
+        cases.append(zoo_kernels.gen_config('pca', rng))
     return cases
+
+
+def run_wavelet(cfg) -> Outcome:
+    """the wavelet operator equals the separable DWT of PyWavelets (zero padding), coefficient order [a, d_n ... d_1]"""
+    import numpy as np
+    import pywt
+    import torch
+
+    import random as _r
+    op, dom, rng_shape, tol = zoo_kernels.build(cfg)
+    rng = _r.Random(cfg['seed'])
+    x = torch.tensor([complex(rng.randint(-4, 4), rng.randint(-4, 4)) for _ in range(int(np.prod(dom)))], dtype=torch.complex128).reshape(dom)
+    (y,) = op(x)
+    nd = len(cfg['domain'])
+    axes = tuple(range(-nd, 0))
+    level = cfg['level']
+    xn = x.numpy()
+    if level is None:
+        level = min(pywt.dwt_max_level(s, pywt.Wavelet(cfg['wavelet']).dec_len) for s in cfg['domain'])
+    coeffs = pywt.wavedecn(xn, cfg['wavelet'], mode='zero', level=level, axes=axes) if level > 0 else [xn]
+    # flatten in the documented order: a, then per level (coarse to fine) the detail directions in PyWavelets key order 'ad','da','dd' / 'aad',...
+    parts = [coeffs[0].reshape(*xn.shape[:-nd], -1)]
+    for lvl in coeffs[1:]:
+        # 2D: the order of pywt.wavedec2's tuple (cH, cV, cD) = ('da', 'ad', 'dd'); 1D / 3D: sorted keys
+        for key in (['da', 'ad', 'dd'] if nd == 2 else sorted(lvl.keys())):
+            parts.append(lvl[key].reshape(*xn.shape[:-nd], -1))
+    want = torch.as_tensor(np.concatenate(parts, -1))
+    viol = None
+    fam = cfg['wavelet']
+    if y.shape != want.shape or float((y - want).abs().max()) > 1e-8 * max(1.0, float(want.abs().max())):
+        viol = {'signature': 'action:wavelet:pywt', 'what': f'{cfg}: coefficients differ from pywt.wavedecn(mode=zero): shapes {list(y.shape)} vs {list(want.shape)}, '
+                f'max dev {float((y - want).abs().max()) if y.shape == want.shape else float("nan"):.2e}'}
+    elif fam in zoo_kernels.WAVELETS_ORTHO:
+        (back,) = op.adjoint(y)
+        if float((back - x).abs().max()) > 1e-8:
+            viol = {'signature': 'action:wavelet:isometry', 'what': f'{cfg}: W^H W x != x for the orthogonal wavelet {fam} (dev {float((back - x).abs().max()):.2e})'}
+    return Outcome(key={k: v for k, v in cfg.items() if k != 'seed'}, viol=viol, branches=[f'wavelet:{fam}:{nd}D:level{cfg["level"]}'], sample=cfg)
+
+
+def run_pca(cfg) -> Outcome:
+    import torch
+
+    op, dom, rng_shape, tol = zoo_kernels.build(cfg)
+    data = op._verif_data
+    M = op._compression_matrix.reshape(rng_shape[0], dom[0]).to(torch.complex128)
+    Dc = data - data.mean(-1, keepdim=True)
+    ev = torch.linalg.eigvalsh(Dc.T @ Dc.conj())
+    n = rng_shape[0]
+    best = float(ev[-n:].sum() / ev.sum())
+    captured = float(((M @ Dc.T).abs() ** 2).sum() / (Dc.abs() ** 2).sum())
+    viol = None
+    if not torch.allclose(M @ M.conj().T, torch.eye(n, dtype=torch.complex128), atol=1e-9):
+        viol = {'signature': 'action:pca:orthonormal', 'what': f'{cfg}: rows of the compression matrix are not orthonormal'}
+    elif captured < best - 1e-8:
+        viol = {'signature': 'action:pca:dominant', 'what': f'{cfg}: the rows span a subspace holding {captured:.6f} of the energy, the dominant {n}-dimensional principal subspace holds {best:.6f}'}
+    return Outcome(key={k: v for k, v in cfg.items() if k != 'seed'}, viol=viol, branches=['pca'], sample={**cfg, 'captured': captured, 'optimal': best})
 
 
 def documented_action(cfg, built, F, A):
@@ -82,6 +143,10 @@ def documented_action(cfg, built, F, A):
 
 
 def run(cfg, drv) -> Outcome:
+    if cfg['kind'] == 'wavelet':
+        return run_wavelet(cfg)
+    if cfg['kind'] == 'pca':
+        return run_pca(cfg)
     built, F, A, Fm, Am, notes = _ops.matrices(cfg, drv)
     corr = _ops.correspondence(cfg, built, F, A, Fm, Am, notes)
     viol = documented_action(cfg, built, F, A)
